@@ -27,9 +27,9 @@ func (gen *generator) indexTopLevelEntities(old *ast.Module) error {
 			ident := localIdent(entity.Name())
 			name := getTypeName(ident)
 			if prev, ok := gen.old.typeDefs[name]; ok {
-				if _, ok := prev.Typ().(*ast.OpaqueType); !ok {
-					return errors.Errorf("type identifier %q already present; prev `%s`, new `%s`", enc.TypeName(name), text(prev), text(entity))
-				}
+				// Note, LLVM rejects the redefinition of a type also when the
+				// previous definition is opaque.
+				return errors.Errorf("type identifier %q already present; prev `%s`, new `%s`", enc.TypeName(name), text(prev), text(entity))
 			}
 			gen.old.typeDefs[name] = entity
 		case *ast.ComdatDef:
